@@ -134,6 +134,11 @@ def execute(prop, tier, plan, seed, wdir):
             out["tool_errors"].append(f"TLC did not consume the trace of batch {name}: {tout[-600:]}")
             return out
         out["rep"] = rep
+        if b.get("b1"):
+            try:
+                batch["schedules_not_followed_to_the_end"] = sum(1 for line in open(trace) if '"E_Infeasible"' in line)
+            except OSError:
+                pass
         try:
             if not plan.get("keep_traces"):
                 os.remove(trace)
@@ -154,6 +159,8 @@ def execute(prop, tier, plan, seed, wdir):
             continue
         batch = out["batch"]
         cov["runs_imprecise"] = cov.get("runs_imprecise", 0) + batch["imprecise"]
+        if "schedules_not_followed_to_the_end" in batch:
+            cov["b1_schedules_not_followed_to_the_end"] = cov.get("b1_schedules_not_followed_to_the_end", 0) + batch["schedules_not_followed_to_the_end"]
         rep = out["rep"]
         if rep is None:
             cov["impl_batches"].append(batch)
